@@ -451,7 +451,12 @@ def contains(ex, st, container, item):
     item = st.get(item)
     if isinstance(c, (ListV, tuple)):
         items = c.items if isinstance(c, ListV) else c
-        parts = [z3eq(st.get(x), item) for x in items]
+        parts = []
+        for x in items:
+            xv = st.get(x)
+            if isinstance(xv, float) and xv != xv and not isinstance(item, float):
+                continue          # NaN equals nothing (and a non-float item is not identical to it either)
+            parts.append(z3eq(xv, item))
         return _simpb(z3.Or(parts)) if parts else False
     if isinstance(c, DictV):
         if is_conc(item):
@@ -735,6 +740,8 @@ def get_attr(ex, st, o, attr, node=None):
             return [(st, tuple(v.f))]
         if attr == "_replace":
             return [(st, bound(rec_replace, v))]
+        if attr == "copy":
+            return [(st, bound(lambda ex, st, s, a, k, n: s, v))]       # rows are immutable values: a copy is the row itself
         if attr == "_asdict":
             return [(st, bound(lambda ex, st, s, a, k, n: st.alloc(DictV(s.f)), v))]
         raise Unsupported("row attribute " + attr)
@@ -1152,7 +1159,11 @@ def sf_vec(ex, st, e):
     def at(k, st=st):
         s2 = st.fork()
         s2.env[name] = k
-        return ex.ev1(lam.body, s2)
+        ex.spec_depth += 1          # elements are evaluated lazily, possibly later: still a spec expression (no obligations)
+        try:
+            return ex.ev1(lam.body, s2)
+        finally:
+            ex.spec_depth -= 1
     return [(st, st.alloc(Vec(n, at, kind="array")))]
 
 
